@@ -161,6 +161,10 @@ func main() {
 					if *verbose || true {
 						fmt.Printf("            %s\n", firstLines(o.Output, 4))
 					}
+					if os.Getenv("GOVC_REPLAY") != "" {
+						rp, ok := makeReplay(e, *verif+"/out/dev-replay", "DEV", r, o)
+						fmt.Printf("            replay: %s reproduced=%v\n", rp, ok)
+					}
 				}
 			}
 			fmt.Printf("%-50s %d/%d discharged\n", r.Key, d, n)
